@@ -54,12 +54,46 @@ def partition_of(h, i):
     return sum(1 for o in h["ops"][:i] if o["k"] == "W") % h["nwal"]
 
 
+def lww_py(h, upto, inflight):
+    m = {}
+    idxs = list(range(upto)) + ([inflight] if inflight is not None and inflight >= upto else [])
+    for i in idxs:
+        op = h["ops"][i]
+        if op["k"] == "W":
+            for r in op["rows"]:
+                for fv in r["f"]:
+                    m[(r["s"], r["t"], fv["f"])] = fv["v"]
+    return m
+
+
+def diff_py(h, im, inflight):
+    exp = lww_py(h, im["acked"], inflight)
+    got = {(c["s"], c["t"], c["f"]): c["got"] for c in im.get("dump") or []}
+    out = []
+    for k in sorted(set(exp) | set(got)):
+        if exp.get(k) != got.get(k):
+            out.append({"s": k[0], "t": k[1], "f": k[2], "want": exp.get(k, 0), "wok": k in exp, "got": got.get(k, 0), "gok": k in got})
+    return out
+
+
 def walphase_signature(h, im):
+    """holds against the acknowledged state or against acknowledged + the one write in flight"""
+    if walphase_signature1(h, im, im.get("diff")):
+        return True
+    if im["inflight"] >= 0 and im.get("dump"):
+        for infl in (None, im["inflight"]):
+            d = diff_py(h, im, infl)
+            if d and walphase_signature1(h, dict(im, diff=d), d):
+                return True
+    return False
+
+
+def walphase_signature1(h, im, diff):
     """two acknowledged writes to the failing (series,time,field), routed to different WAL partitions, and the value
     recovered is that of the older one (replay applied the older record after, or without, the newer one)"""
-    if h["nwal"] < 2 or not im.get("diff"):
+    if h["nwal"] < 2 or not diff:
         return False
-    for c in im["diff"]:
+    for c in diff:
         ws = writes_to(h, im["acked"], im["inflight"] if im["inflight"] >= 0 else None, c)
         if len(ws) < 2 or not c["gok"]:
             return False
@@ -93,7 +127,7 @@ def main(ck):
                               "Go harness cmd/c01 + internal/crashfs + internal/tsdrv (hooks lib/fileops/verif_export_c03.go, "
                               "engine/verif_export_c02.go), python driver props/C01/run.py"]
     ck.coq_audit(["C01"])
-    ok = ck.coq_build(["C01/Proofs.vo", "C01/Corr.vo"])
+    ok = ck.coq_build(["C01/Proofs.vo", "C01/Proofs2.vo", "C01/Corr.vo"])
     if ok:
         ck.coq_props(["C01/Props.v", "C01/Refuted.v"])
     binp = ck.go_build("./cmd/c01", "c01")
